@@ -327,6 +327,15 @@ def run(ctx):
             ("distinct-expressions", head + "component ra = Num2Bits(%d); component rb = Num2Bits(%d); ra.in <== a; rb.in <== b + 1; lt.in[0] <== a; lt.in[1] <== b + 2; o <== lt.out; }" % (small, small), 1, 1),
             ("distinct-literals", head + "component ra = Num2Bits(%d); component rb = Num2Bits(%d); ra.in <== a; rb.in <== b * 3; lt.in[0] <== a; lt.in[1] <== b * 5; o <== lt.out; }" % (small, small), 1, 1),
             ("equal-expressions", head + "component ra = Num2Bits(%d); component rb = Num2Bits(%d); ra.in <== a; rb.in <== b + 1; lt.in[0] <== a; lt.in[1] <== b + 1; o <== lt.out; }" % (small, small), 0, 0),
+            # a range check that is `Num2Bits(8)` on one branch and `Num2Bits(n)` with a size that is not known on the other (both orders, and as two
+            # elements of a component array selected by a parameter): the size may be anything, so the input is not known to be checked
+            # (seeded change C11/m6: sizes were identified "unless both are known and different")
+            ("size-known-or-unknown", head + "component rc; component rb = Num2Bits(%d); if (n == 1) { rc = Num2Bits(%d); } else { rc = Num2Bits(n); } rc.in <== a; rb.in <== b; "
+             "lt.in[0] <== a; lt.in[1] <== b; o <== lt.out; }" % (small, small), 1, 1),
+            ("size-unknown-or-known", head + "component rc; component rb = Num2Bits(%d); if (n == 1) { rc = Num2Bits(n); } else { rc = Num2Bits(%d); } rc.in <== a; rb.in <== b; "
+             "lt.in[0] <== a; lt.in[1] <== b; o <== lt.out; }" % (small, small), 1, 1),
+            ("size-known-or-unknown-array", head + "component rc[2]; component rb = Num2Bits(%d); rc[0] = Num2Bits(%d); rc[1] = Num2Bits(n); rc[n].in <== a; rc[1 - n].in <== a + 1; rb.in <== b; "
+             "lt.in[0] <== a; lt.in[1] <== b; o <== lt.out; }" % (small, small), 1, 1),
             # a local that is assigned once, range checked in the entry block and compared in a loop; an element checked at the top of a loop
             # body and compared inside a conditional statement of the same iteration: the check is in a dominating block (differential review
             # f3: the same-block rule of 2b59069 reported both; 0 since 3ad27f4, 1 and 2 before)
@@ -433,7 +442,9 @@ def run(ctx):
         jobs = []
         for c in ["BN254", "BLS12_381", "GOLDILOCKS"]:
             for t, args in mains:
-                text = "pragma circom 2.0.0;\nfunction f(x) { return x + 1; }\ntemplate %s%s\n" % (t, body.get(t, "() { signal input a; signal output b; b <== a; }" if args == "()" else "(n) { signal input a; signal output b; b <== a + n; }"))
+                # every third file allows custom templates (seeded change C11/m5: the flag of the file was taken for the kind of the main component)
+                pragma = "pragma circom 2.0.0;\npragma custom_templates;\n" if len(jobs) % 3 == 1 else "pragma circom 2.0.0;\n"
+                text = pragma + "function f(x) { return x + 1; }\ntemplate %s%s\n" % (t, body.get(t, "() { signal input a; signal output b; b <== a; }" if args == "()" else "(n) { signal input a; signal output b; b <== a + n; }"))
                 p = wdm.write("main_%s_%d.circom" % (c, len(jobs)), (text + "component main = %s%s;\n" % (t, args)).encode())
                 want = set()
                 if c != "BN254" and t in spec[c]:
